@@ -8,15 +8,32 @@
 //
 // variant (input line key "variant"): "i" int, "f" float, "d" double, "fa" float
 // with padded 3-vectors (dimension 3 only; other dimensions answer "n/a").
+// More element types: "l" int64_t, "ui" uint32_t, "s" int16_t, "uc" uint8_t, "ia" int with
+// padded 3-vectors (dimension 3 only).
 // The model's sentinel +-INF (1000000) is mapped to pos_inf / neg_inf of the
 // element type; a box whose bounds are the sentinel is DEFAULT-CONSTRUCTED.
+//
+// Value maps (input line key "vmap", default "id"): the model's small lattice integer k
+// is turned into the coordinate f(k) of the real box by a STRICTLY INCREASING map f, and
+// results are mapped back with the inverse (table look-up, exact equality).  The
+// operations that only compare coordinates (contains, extend, clamp, intersectionOf,
+// disjoint, touchingOrOverlapping, empty) commute with such maps (law LawMonotone* of
+// the specification), so the expected values computed on the lattice apply unchanged:
+//   far   - neighbourhood of the type's limits: +-(2^31-10) for int / double, +-(2^24-8)
+//           for float, +-(2^15-10) for int16_t, 2^(w-1)+k for unsigned types (crosses the
+//           sign bit of the signed type of the same width), k*2^32-k for int64_t
+//   tenth - k * 0.1 (non-dyadic),  sub - k * 1e-41f / 1e-310 (subnormal),
+//   huge  - k * 1e37f / 1e307
 //
 // Guards that only look at the INPUT integers (never at results): size / center /
 // area / volume / clamp / scale / translate are not evaluated for a box whose input
 // bounds are inverted (the library documents them as undefined for empty boxes and
 // the specification does not constrain them).
 #include <cmath>
+#include <cstdint>
+#include <cstring>
 #include <string>
+#include <type_traits>
 #include "driver.h"
 #include "rkcommon/math/AffineSpace.h"
 #include "rkcommon/math/box.h"
@@ -27,19 +44,55 @@ using namespace rkcommon::math;
 using vj::Json;
 
 static const long long INF_M = 1000000;
+static std::string g_vmap = "id";  // set per input line (World constructor)
+static const long long KTAB = 12;  // lattice integers with an inverse under a value map
 
 // ---- scalars ----------------------------------------------------------------
+template <typename T, bool FLOATING = std::is_floating_point<T>::value>
+struct ValueMap
+{  // integral element types
+  static T f(long long k)
+  {
+    if (g_vmap == "far") {
+      if (std::is_unsigned<T>::value) return (T)((1ULL << (8 * sizeof(T) - 1)) + (unsigned long long)k);
+      if (sizeof(T) == 8) return (T)(k * 4294967296LL - k);
+      const long long base = (1LL << (8 * sizeof(T) - 1)) - 10;
+      return (T)(k > 0 ? base + k : k < 0 ? -base + k : 0);
+    }
+    return (T)k;
+  }
+};
+template <typename T>
+struct ValueMap<T, true>
+{  // float / double
+  static T f(long long k)
+  {
+    const bool single = sizeof(T) == 4;
+    if (g_vmap == "far") {
+      const double base = single ? 16777216.0 - 8 : 2147483648.0 - 10;
+      return (T)(k > 0 ? base + (double)k : k < 0 ? -base + (double)k : 0.0);
+    }
+    if (g_vmap == "tenth") return (T)k * (T)0.1;
+    if (g_vmap == "sub") return (T)k * (single ? (T)1e-41f : (T)1e-310);
+    if (g_vmap == "huge") return (T)k * (single ? (T)1e37f : (T)1e307);
+    return (T)k;
+  }
+};
 template <typename T>
 static T toScalar(long long v)
 {
   if (v == INF_M) return (T)pos_inf;
   if (v == -INF_M) return (T)neg_inf;
+  if (g_vmap != "id" && v >= -KTAB && v <= KTAB) return ValueMap<T>::f(v);
   return (T)v;
 }
 template <typename T>
 static Json fromScalar(T x)
 {
   if (x != x) return Json("nan");
+  if (g_vmap != "id")
+    for (long long k = -KTAB; k <= KTAB; ++k)
+      if (ValueMap<T>::f(k) == x) return Json(k);
   if (x == (T)pos_inf) return Json(INF_M);
   if (x == (T)neg_inf) return Json(-INF_M);
   double d = (double)x;
@@ -94,6 +147,7 @@ struct Extra
 {
   typedef range_t<typename VT<T, N, A>::V> B;
   static void unary(const B &, Json &) {}
+  static void centerFree(const B &b, Json &o) { o.set("center2_free", VT<T, N, A>::out(VT<T, N, A>::twice(center(b)))); }
   static void pair(const B &a, const B &b, Json &o, bool all)
   {
     B r = intersectionOf(a, b);
@@ -114,6 +168,7 @@ struct Extra<T, 1, false>
 {
   typedef range_t<T> B;
   static void unary(const B &, Json &) {}
+  static void centerFree(const B &, Json &) {}  // the free function center() exists for vector boxes only
   static void pair(const B &, const B &, Json &, bool) {}
   static Json boxResult(const B &r)
   {
@@ -129,6 +184,7 @@ struct Extra<T, 2, false>
 {
   typedef range_t<vec_t<T, 2>> B;
   static void unary(const B &b, Json &o) { o.set("area", fromScalar<T>(area(b))); }
+  static void centerFree(const B &b, Json &o) { o.set("center2_free", VT<T, 2, false>::out(VT<T, 2, false>::twice(center(b)))); }
   static void pair(const B &a, const B &b, Json &o, bool all)
   {
     B r = intersectionOf(a, b);
@@ -156,6 +212,7 @@ struct Extra<T, 3, A>
     o.set("area", fromScalar<T>(area(b)));
     o.set("volume", fromScalar<T>(volume(b)));
   }
+  static void centerFree(const B &b, Json &o) { o.set("center2_free", VT<T, 3, A>::out(VT<T, 3, A>::twice(center(b)))); }
   static void pair(const B &a, const B &b, Json &o, bool all)
   {
     B r = intersectionOf(a, b);
@@ -225,6 +282,12 @@ struct Ops : IBox
     } else if (a == "Center") {
       const B b = makeBox(arg["lo"], arg["hi"]);
       o.set("center2", W::out(W::twice(b.center())));
+      X::centerFree(b, o);  // member and free function must agree (both are compared with the specification)
+    } else if (a == "MeasureBig") {
+      const B b = makeBox(arg["lo"], arg["hi"]);
+      o.set("size", W::out(b.size()));
+      o.set("center2", W::out(W::twice(b.center())));
+      X::centerFree(b, o);
     } else if (a == "Points") {
       const B b = makeBox(arg["lo"], arg["hi"]);
       const bool inv = inputInverted(arg["lo"], arg["hi"]);
@@ -375,22 +438,33 @@ static Json readable(double t)
   if (std::isinf(t)) return Json(t > 0 ? "inf" : "-inf");
   return Json(t);
 }
+template <typename T>
+static bool sameBits(T a, T b)
+{
+  return memcmp(&a, &b, sizeof(T)) == 0;
+}
 template <typename T, int N>
 static Json rayCase(const Json &arg)
 {
   typedef vec_t<T, N> V;
   typedef VT<T, N, false> W;
   const V org = W::make(arg["org"]), dir = W::make(arg["dir"]);
-  const range_t<V> box(W::make(arg["lo"]), W::make(arg["hi"]));
+  // the model's default empty box is default-constructed, every other box (inverted ones too) is built from its bounds
+  const range_t<V> box = isDefaultEmpty(arg["lo"]) ? range_t<V>() : range_t<V>(W::make(arg["lo"]), W::make(arg["hi"]));
   const long long tlo2 = arg["tlo2"].num(), thi2 = arg["thi2"].num();
   range_t<T> r;
-  if (tlo2 == 0 && thi2 == INF_M) r = intersectRayBox(org, dir, box);  // default range [0, inf)
-  else r = intersectRayBox(org, dir, box, range_t<T>((T)tlo2 / (T)2, thi2 == INF_M ? (T)inf : (T)thi2 / (T)2));
+  bool differs = false;
+  if (tlo2 == 0 && thi2 == INF_M) {
+    r = intersectRayBox(org, dir, box);  // default range [0, inf)
+    const range_t<T> x = intersectRayBox(org, dir, box, range_t<T>((T)0, (T)inf));  // ... and the same range spelled out
+    differs = !(sameBits(r.lower, x.lower) && sameBits(r.upper, x.upper));
+  } else r = intersectRayBox(org, dir, box, range_t<T>((T)tlo2 / (T)2, thi2 == INF_M ? (T)inf : (T)thi2 / (T)2));
   Json o = Json::object();
   bool nan = false;
   scaledEnd<T>(r.lower, o, "T0", nan);
   scaledEnd<T>(r.upper, o, "T1", nan);
   o.set("nan", nan);
+  o.set("differs", differs);
   o.set("t0", readable((double)r.lower));  // for the report only; TLC validates T0 / T1
   o.set("t1", readable((double)r.upper));
   o.set("empty", r.empty());
@@ -428,6 +502,7 @@ struct World
 
   World(const Json &hist) : variant(hist["variant"].str()), cur(nullptr)
   {
+    g_vmap = hist.has("vmap") ? hist["vmap"].str() : std::string("id");
     for (int i = 0; i < 5; ++i) ops[i] = nullptr;
   }
   ~World()
@@ -441,6 +516,11 @@ struct World
     if (variant == "f") return makeOps<float>(d, false);
     if (variant == "d") return makeOps<double>(d, false);
     if (variant == "fa") return makeOps<float>(d, true);
+    if (variant == "ia") return makeOps<int>(d, true);
+    if (variant == "l") return makeOps<int64_t>(d, false);
+    if (variant == "ui") return makeOps<uint32_t>(d, false);
+    if (variant == "s") return makeOps<int16_t>(d, false);
+    if (variant == "uc") return makeOps<uint8_t>(d, false);
     return nullptr;
   }
   Json step(const Json &act)
